@@ -156,9 +156,10 @@ theorem probe_eq (filter : Bytes) (n d : Nat) (hn : 0 < n) : ∀ (j h : Nat),
 
 end SB
 
-/-- The two bloom tests agree on every filter of at most 2^29 bytes. (Beyond that the model -- like the
-    crate -- computes the number of bits in `u32`, whereas LevelDB and the Spec use `size_t`.) -/
-theorem specBloomMayMatch_eq (k f : Bytes) (hf : (f.length - 1) * 8 < 2 ^ 32) :
+/-- The two bloom tests agree on every filter of at most 2^61 bytes: since fix D19 the crate (hence the
+    model) computes the number of bits in 64 bits, like LevelDB's `size_t`; the Spec does not wrap at
+    all.  (Before the fix -- bit count in `u32` -- they agreed only up to 2^29 bytes.) -/
+theorem specBloomMayMatch_eq (k f : Bytes) (hf : (f.length - 1) * 8 < 2 ^ 64) :
     Spec.Format.bloomMayMatch k f = Bloom.keyMayMatch k f := by
   unfold Spec.Format.bloomMayMatch Bloom.keyMayMatch
   by_cases h2 : f.length < 2
@@ -168,7 +169,8 @@ theorem specBloomMayMatch_eq (k f : Bytes) (hf : (f.length - 1) * 8 < 2 ^ 32) :
   by_cases hk : (f.getD (f.length - 1) 0).toNat > 30
   · rw [if_pos hk, if_pos hk]
   rw [if_neg hk, if_neg hk]
-  have hb : Bloom.u32 ((f.length - 1) * 8) = (f.length - 1) * 8 := Nat.mod_eq_of_lt hf
+  have hb : ((f.length - 1) * 8) % 2 ^ Consts.bloomBitsWidth = (f.length - 1) * 8 :=
+    Nat.mod_eq_of_lt (by rw [Bloom.two_pow_bitsWidth]; omega)
   rw [hb, specBloomHash_eq, SB.probe_eq f (f.length - 1) _ (by omega)]
   congr 1
   unfold Bloom.delta
@@ -204,9 +206,10 @@ theorem bigFilter_mid (n i : Nat) (h1 : 1 ≤ i) (h2 : i ≤ n) : (bigFilter n).
   simp only [List.getElem?_replicate, List.length_cons, List.length_nil]
   split <;> rfl
 
-/-- beyond 2^29 filter bytes the crate's (and the model's) `u32` bit count and LevelDB's `size_t` bit
-    count differ: the model answers "may match", the Spec "definitely not" -/
-theorem bloom_u32_wrap_cex (n : Nat) (hn : n = 2 ^ 29) :
+/-- beyond 2^61 filter bytes (not representable on any machine) the crate's (and the model's) 64-bit
+    bit count wraps whereas the Spec's unbounded one does not: the model answers "may match", the Spec
+    "definitely not".  (Before fix D19 the same happened at 2^29 + 2 bytes.) -/
+theorem bloom_u64_wrap_cex (n : Nat) (hn : n = 2 ^ 61) :
     Bloom.keyMayMatch [] (bigFilter n) = true ∧ Spec.Format.bloomMayMatch [] (bigFilter n) = false := by
   have hl := bigFilter_length n
   constructor
@@ -215,7 +218,7 @@ theorem bloom_u32_wrap_cex (n : Nat) (hn : n = 2 ^ 29) :
     simp only []
     have e1 : (bigFilter n).length - 1 = n + 1 := by omega
     rw [e1, bigFilter_last, if_neg (by decide)]
-    have e2 : Bloom.u32 ((n + 1) * 8) = 8 := by unfold Bloom.u32; omega
+    have e2 : ((n + 1) * 8) % 2 ^ Consts.bloomBitsWidth = 8 := by rw [Bloom.two_pow_bitsWidth]; omega
     rw [e2, bloomHash_nil]
     show Bloom.checkProbes 8 _ _ 1 3164544308 = true
     rw [Bloom.checkProbes]
@@ -238,18 +241,19 @@ theorem bloom_u32_wrap_cex (n : Nat) (hn : n = 2 ^ 29) :
     rfl
 end SB
 
-/-- without the size proviso `specBloomMayMatch_eq` is false (filter of 2^29 + 2 bytes) -/
+/-- without the size proviso `specBloomMayMatch_eq` is false (filter of 2^61 + 2 bytes) -/
 theorem specBloomMayMatch_eq_false :
     ¬ ∀ k f : Bytes, Spec.Format.bloomMayMatch k f = Bloom.keyMayMatch k f := by
   intro h
-  obtain ⟨h1, h2⟩ := SB.bloom_u32_wrap_cex (2 ^ 29) rfl
+  obtain ⟨h1, h2⟩ := SB.bloom_u64_wrap_cex (2 ^ 61) rfl
   rw [h, h1] at h2
   cases h2
 
 /-- the Spec's filter-block reader answers `true` whenever the model reader (bloom policy, any bits)
-    answers `.ok true`; for filter blocks of at most 2^29 bytes (see `specBloomMayMatch_eq`) -/
+    answers `.ok true`; for filter blocks shorter than 4 GiB (the format's offsets are 32-bit; the
+    bound was 2^29 before fix D19, see `specBloomMayMatch_eq`) -/
 theorem specFilterBlock_of_model (fb : Bytes) (r : FilterBlockReader) (hnew : FilterBlockReader.new fb = .ok r)
-    (hwf : FilterBlockReader.isWellFormed fb = true) (hlen : fb.length ≤ 2 ^ 29) (b : Nat) (off : Nat) (k : Bytes)
+    (hwf : FilterBlockReader.isWellFormed fb = true) (hlen : fb.length < 2 ^ 32) (b : Nat) (off : Nat) (k : Bytes)
     (h : r.keyMayMatch (Bloom.policy b) off k = .ok true) : Spec.Format.filterBlockMayMatch fb off k = true := by
   have _ := hwf
   unfold FilterBlockReader.new at hnew
